@@ -98,6 +98,18 @@ fn bad_proto(r: &mut Rng, proto: &[Rec], registered: &[String], allow_f10: bool)
     let mut p = proto.to_vec();
     let pos = |p: &Vec<Rec>, i: u8| p.iter().position(|x| x.name == Name::Std(i));
     match r.below(16) {
+        0 if r.chance(1, 2) => {
+            // one component of a triple twice and another one missing (same record count as a complete triple)
+            let triples: Vec<[u8; 3]> = [[CX, CY, CZ], [SR, SA, SE], [RED, GREEN, BLUE]].into_iter().filter(|t| pos(&p, t[0]).is_some() && pos(&p, t[1]).is_some() && pos(&p, t[2]).is_some()).collect();
+            if let Some(t) = triples.first() {
+                let a = r.usize_below(3);
+                let b = (a + 1 + r.usize_below(2)) % 3;
+                if let (Some(ia), Some(ib)) = (pos(&p, t[a]), pos(&p, t[b])) {
+                    let dup = p[ia].clone();
+                    p[ib] = dup;
+                }
+            }
+        }
         0 => {
             // drop one coordinate component
             let coords: Vec<usize> = p.iter().enumerate().filter(|(_, x)| matches!(x.name, Name::Std(i) if i <= CZ || (SR..=SE).contains(&i))).map(|(i, _)| i).collect();
